@@ -49,6 +49,7 @@ type schemaConv struct {
 	shared  bool           // a $ref pointed at a component named after another type
 	top     string         // expected name of the component the top-level $ref points at ("" = unknown)
 	differs bool           // inside a shared component, a documented keyword is not the attribute's own
+	hops    int            // $ref followed so far (a cyclic document must not hang the harness)
 }
 
 var trailingDigits = regexp.MustCompile(`[0-9]+$`)
@@ -102,6 +103,10 @@ func (sc *schemaConv) term(js any, a *expr.AttributeExpr, depth int, transparent
 		return "(SRef 996)"
 	}
 	if ref, ok := m["$ref"].(string); ok {
+		sc.hops++
+		if sc.hops > 400 {
+			return "(SRef 995)"
+		}
 		name := ref[strings.LastIndex(ref, "/")+1:]
 		comp := sc.comps[name]
 		if transparentRef && sc.top != "" {
@@ -486,10 +491,25 @@ func schemaCases(res *vh.Result, items []*built) []string {
 				default:
 					in := e.Kind
 					var js any
+					var found map[string]any
 					for _, p := range params {
 						pm := asMap(p)
 						if pm["in"] == in && (pm["name"] == wireOf(it, ep, e) || pm["name"] == e.Name) {
 							js = pm["schema"]
+							found = pm
+						}
+					}
+					if found != nil {
+						// the documented `required` flag vs the Required the generated decoder enforces
+						docReq, _ := found["required"].(bool)
+						res.Count(fmt.Sprintf("param_required_%s_doc=%v_server=%v", in, docReq, e.Required))
+						if docReq != e.Required {
+							sig := "param-required-flag-differs:" + in
+							if (in == "header" || in == "cookie") && e.Required && e.Att.DefaultValue != nil {
+								sig = "openapi3-param-required-mismatch:" + in + "-required-with-default"
+							}
+							failSig(res, sig, fmt.Sprintf("openapi3.json says required: %v for %s parameter %q of %s; the generated decoder enforces required: %v", docReq, in, e.Name, name, e.Required),
+								map[string]any{"design": it.bu.Design, "endpoint": name, "parameter": e.Name, "in": in, "documented_required": docReq, "server_required": e.Required, "has_default": e.Att.DefaultValue != nil})
 						}
 					}
 					emit("req", i, e, js, false)
